@@ -18,7 +18,10 @@ Inductive case :=
 (* a subscriber that never reads: did the broker give the connection up, was the publisher to its channel served *)
 | CStall (gave_up publisher_served : bool)
 (* answers to a survey arriving after it ended (peers, answers in time, answers afterwards): were they handled *)
-| CSurvey (peers early late : N) (handled : bool).
+| CSurvey (peers early late : N) (handled : bool)
+(* the payload of a survey request from a peer handed to the storage (0) / presence (1) handler: class as
+   above, bytes allocated *)
+| CSurveyReq (which : N) (payload : bytes) (class : N) (alloc : N).
 
 Definition msg_eqb (a b : msg) : bool :=
   bytes_eqb (m_id a) (m_id b) && bytes_eqb (m_chan a) (m_chan b) && bytes_eqb (m_payload a) (m_payload b)
@@ -38,6 +41,7 @@ Definition check (c : case) : N :=
   match c with
   | CStall gave_up served => bit (gave_up && served) 2
   | CSurvey _ _ _ handled => bit handled 2
+  | CSurveyReq _ payload class alloc => bit (class <? 2) 2 |+| bit (alloc <=? 256 * len payload + 1048576) 4
   | CStream s max served ending alloc =>
     let '(ms, e) := process (S (length s)) s max [] in
     bit (list_eqb packet_eqb ms served && (pend_class e =? ending)) 1
